@@ -10,6 +10,7 @@
   internal stage of the tie;
 * the live `isinstance` oracle (Python itself decides what "is an instance of a listed type" means).
 """
+import collections
 import collections.abc
 import contextlib
 import io
@@ -131,7 +132,33 @@ def py_arg(arg, types, form="list"):
     if "bare_type" in arg:
         return types[arg["bare_type"]]
     items = [x[1] if x[0] == "n" else (types[x[1]] if x[0] == "t" else None) for x in arg.get("seq", [])]
+    if form == "seqsub":
+        return SeqForm(items)
+    if form == "listsub":
+        return ListForm(items)
+    if form == "deque":
+        return collections.deque(items)
     return tuple(items) if form == "tuple" else items
+
+
+class SeqForm(collections.abc.Sequence):
+    """a `Sequence[str | type]` that is neither a list nor a tuple (what the signature of save()/load() declares)"""
+
+    def __init__(self, items):
+        self._items = tuple(items)
+
+    def __getitem__(self, i):
+        return self._items[i]
+
+    def __len__(self):
+        return len(self._items)
+
+    def __repr__(self):
+        return f"SeqForm({list(self._items)!r})"
+
+
+class ListForm(list):
+    """a list subclass"""
 
 
 def make_arg(rng, names, types, junk=False):
@@ -220,3 +247,29 @@ def canon_summary(s):
 def quiet():
     with contextlib.redirect_stdout(io.StringIO()):
         yield
+
+
+# ---- growth round 6: a fixed deep tree ---------------------------------------------------------
+def deep_tree(raw_at_root=False):
+    """root(SA).stage(SB).frame(SA).inner(SB): `raw` sits two and three levels below objects that LACK it
+    (root and stage carry no `raw`; with raw_at_root the root has one, stage and frame have none and it
+    re-appears three levels down); names that are prefixes of each other (`w`/`we`/`wei`/`weight`/`weights`,
+    `ra`/`raw`/`raw_data`/`_raw`); a bool next to ints, an np.float64 next to floats; containers with 12
+    elements (a mixed list, an all-int list that takes the ndarray fast path, a dict)"""
+    S = sc.S
+    nd = ["nd", "float64", [2], [S(0.5), S(1.5)], "C"]
+    big = ["list", [["scalar", S("s%d" % i)] if i % 2 else ["scalar", S(i)] for i in range(12)]]
+    nums = ["list", [["scalar", S(i * 3)] for i in range(12)]]
+    table = ["dict", [["k%d" % i, ["scalar", S(i)]] for i in range(12)]]
+    inner = ["obj", "SB", [["raw", ["scalar", S(7)]], ["keep", ["scalar", S("k")]], ["raw_data", nd], ["flag", ["scalar", S(True)]],
+                           ["weight", ["np", "float64", S(2.5)]]]]
+    frame = ["obj", "SA", [["weight", ["np", "float64", S(1.5)]], ["inner", inner], ["big", big], ["nums", nums], ["table", table],
+                           ["n", ["scalar", S(3)]]]]
+    if not raw_at_root:
+        frame[2].insert(0, ["raw", nd])
+    stage = ["obj", "SB", [["w", ["scalar", S(0.25)]], ["we", ["scalar", S(True)]], ["weights", ["list", [["scalar", S(1.5)], ["scalar", S(2.5)]]]],
+                           ["frame", frame], ["ra", ["scalar", S("x")]]]]
+    root = ["obj", "SA", [["gain", ["scalar", S(1)]], ["stage", stage], ["wei", ["scalar", S(3)]], ["_raw", ["scalar", S("s")]]]]
+    if raw_at_root:
+        root[2].insert(1, ["raw", ["scalar", S(5)]])
+    return root
